@@ -222,6 +222,8 @@ def run(R):
                     arm = "dup" if known == [True] else ("new" if known == [False] else
                                                         ("dup" if af.dominates(g[1], i) else ("new" if af.dominates(g[2], i) else "?")))
                     rets[arm] = s["rv"]["op"]["v"]
+            if "new" not in rets and any(o.kind == "call" and o.call is ins[0] for o in F.origins(af, 0, depth=6, through_calls=False)):
+                rets["new"] = "true"      # `.. ; self.values.insert(value.clone())` as the tail: insert returns true for a new element
             if rets.get("dup") == "false" and rets.get("new") == "true":
                 R.ok("C08.set", "add", "contains -> false; otherwise insert(clone) -> true; set of Vec<Value>", af.loc())
             else:
